@@ -40,6 +40,10 @@ def stages(i):
         lambda: ('delete', (c(1), c(2))), lambda: ('replace', (c(1), c(60))), lambda: ('replace', (c(2), c(60), c(3))), lambda: ('slice', (c(2),)), lambda: ('memorize', ()),
         lambda: ('join', (c([1, 2]), g.bn('=', g.bn('mod', i.l(g.var('1')), c(3)), g.var('2')), g.lst(g.var('1'), g.var('2')))),
         lambda: ('limit', (c(4),)),
+        # inner collections that are themselves lazy: their lambda runs only for what is consumed
+        lambda: ('selectMany', (g.mcall(g.call('range', g.bn('+', g.bn('mod', X, c(3)), c(2))), 'select', i.l(g.bn('*', X, c(10)))),)),
+        lambda: ('join', (g.mcall(c([1, 2, 0, 1]), 'select', i.l(g.bn('mod', X, c(2)))), g.bn('=', g.bn('mod', i.l(g.var('1')), c(2)), g.var('2')),
+                          g.lst(g.var('1'), g.var('2')))),
     ]
 
 
